@@ -55,6 +55,9 @@ def gen_case(run_seed, tier):
     if src == "init":
         case["ne"] = sz.randint(1, 3)
         case["np"] = sz.randint(max(1, case["ne"]), 5)
+        if sz.random() < 0.12:
+            case["np"] = sz.randint(10, 13)  # two-digit register indices
+            case["ne"] = sz.randint(2, 3)
     else:
         g, fam = graphs.random_graph(sz, 2, 6 if src == "trs" else 5, connected=(src == "alt"), allow_isolated=False)
         case["n"], case["edges"] = g[0], [list(e) for e in g[1]]
@@ -106,6 +109,14 @@ def photon_structure(circ):
         circ.validate()
     except Exception as e:
         return "I1_validate", repr(e)
+    for r in range(circ.n_emitters):
+        try:
+            for nn in gq.wire_nodes(circ, "e", r)[1:-1]:
+                o = dag.nodes[nn]["op"]
+                if ("e", r) not in list(zip(o.q_registers_type, o.q_registers)):
+                    return "I1_op_on_foreign_wire", f"node {nn} {gq.spec_of(o)} lies on the wire of emitter {r} but does not act on it"
+        except ValueError as e:
+            return "I1_wire", str(e)
     for n in dag.nodes:
         op = dag.nodes[n]["op"]
         if isinstance(op, (ops.ControlledPairOperationBase, ops.ClassicalControlledPairOperationBase)):
@@ -118,6 +129,10 @@ def photon_structure(circ):
             return "I1_wire", str(e)
         if not nodes:
             return "I3_photon_never_emitted", f"photon {r} has no operation at all"
+        for nn in nodes:
+            o = dag.nodes[nn]["op"]
+            if ("p", r) not in list(zip(o.q_registers_type, o.q_registers)):
+                return "I1_op_on_foreign_wire", f"node {nn} {gq.spec_of(o)} lies on the wire of photon {r} but does not act on it"
         first = dag.nodes[nodes[0]]["op"]
         if not (type(first) is ops.CNOT and first.control_type == "e" and first.target_type == "p" and first.target == r):
             return "I3_first_op_not_emission", f"photon {r}: first operation is {gq.spec_of(first)}"
